@@ -244,12 +244,15 @@ AckedLost(p, L) == UNION {{<<sp, i>> : i \in {j \in L[sp] \cap DOMAIN p[sp] : p[
 \* send times of the in-flight packets declared lost in this call
 LostTrig(p, L) == UNION {{p[sp][i].t : i \in {j \in L[sp] \cap DOMAIN p[sp] : p[sp][j].st = "out" /\ p[sp][j].inf}} : sp \in Spaces}
 
+\* a probe timeout fired: the back-off counter advanced or a probe packet was requested
+SumNeed(cc) == cc.need[1] + cc.need[2] + cc.need[3]
+ProbeFired(c0, c1) == c1.pton = c0.pton + 1 \/ SumNeed(c1) > SumNeed(c0)
 Common(o, endsBackoff, isTick) ==
     /\ c' = o.c
-    /\ ptoPrev' = IF o.c.pton = c.pton + 1 THEN [dur |-> c.pto[1], srtt |-> c.srtt, var |-> c.var]
+    /\ ptoPrev' = IF isTick /\ ProbeFired(c, o.c) THEN [dur |-> c.pto[1], srtt |-> c.srtt, var |-> c.var]
                   ELSE IF endsBackoff THEN NoPto ELSE ptoPrev
     /\ shrinkAt' = IF o.c.cwnd < c.cwnd THEN now ELSE shrinkAt
-    /\ probes' = IF o.c.pton = c.pton + 1 THEN probes + 1 ELSE probes
+    /\ probes' = IF isTick /\ ProbeFired(c, o.c) THEN probes + 1 ELSE probes
     /\ dead' = (dead \/ (isTick /\ ~o.ok))
 
 Init ==
@@ -398,14 +401,14 @@ TimerArmed ==
 ExpiredTimerActs ==
     (Stepped /\ last.act = "tick" /\ last.c0.timer # NONE /\ last.c0.timer + MaxAckDelay + Gran < now /\ ~dead)
     => \/ \E sp \in Spaces : last.lost[sp] # {}
-       \/ c.pton = last.c0.pton + 1
+       \/ ProbeFired(last.c0, c)
        \/ c.timer = NONE \/ c.timer > now
 PtoIntervalDoubles ==
-    (Stepped /\ last.act = "tick" /\ c.pton = last.c0.pton + 1 /\ c.srtt = last.c0.srtt /\ c.var = last.c0.var)
+    (Stepped /\ last.act = "tick" /\ ProbeFired(last.c0, c) /\ c.srtt = last.c0.srtt /\ c.var = last.c0.var)
     => \A sp \in Spaces : Abs(c.pto[sp] - 2 * last.c0.pto[sp]) <= 2
 \* the back-off is not restarted except by an acknowledgement of new packets or by discarding a space
 PtoBackoffNotReset ==
-    (Stepped /\ last.act = "tick" /\ c.pton = last.c0.pton + 1 /\ last.ptoPrev0.dur # NONE
+    (Stepped /\ last.act = "tick" /\ ProbeFired(last.c0, c) /\ last.ptoPrev0.dur # NONE
         /\ last.ptoPrev0.srtt = last.c0.srtt /\ last.ptoPrev0.var = last.c0.var)
     => Abs(last.c0.pto[1] - 2 * last.ptoPrev0.dur) <= 2
 AbandonOnlyAfterMaxPto == (Stepped /\ last.act = "tick" /\ ~last.ok) => c.pton > MaxPto
